@@ -58,14 +58,32 @@ INVARIANTS
     return _dedupe(res.printed, "ops")
 
 
-def gen_e2e(run, clean, num, steps, seed):
-    cfg = "RpkiGen_%s_%d.cfg" % ("clean" if clean else "free", seed)
+def gen_tbl_dup(run, steps):
+    cfg = "RpkiTblGen_dup_%d.cfg" % steps
+    v.write_cfg(run.sc, cfg, "SPECIFICATION GenSpec\n" + BASE + """  Fix <- NoFix
+  Mode = "dup"
+  Fam = "v4"
+  K = 0
+  MaxSteps = %d
+INVARIANTS
+  EmitDup
+""" % steps)
+    res = v.tlc(run.sc, "RpkiTblGen", cfg, workers=1, deadlock=False, timeout=900)
+    v.require_design_ok(res, "RpkiTblGen dup")
+    if not res.printed:
+        raise v.MachineryError("RpkiTblGen printed no duplicate-announcement sequences:\n" + res.out[-2000:])
+    return res.printed
+
+
+def gen_e2e(run, clean, num, steps, seed, focus="wide"):
+    cfg = "RpkiGen_%s_%s_%d.cfg" % ("clean" if clean else "free", focus, seed)
     v.write_cfg(run.sc, cfg, "SPECIFICATION GenSpec\n" + BASE + """  Fix <- NoFix
   MaxSteps = %d
   Clean = %s
+  Focus = "%s"
 INVARIANTS
   Emit
-""" % (steps, "TRUE" if clean else "FALSE"))
+""" % (steps, "TRUE" if clean else "FALSE", focus))
     res = v.tlc(run.sc, "RpkiGen", cfg, mode="simulate", simulate="num=%d" % num, depth=steps + 1,
                 seed=seed, workers=1, deadlock=False, timeout=600)
     v.require_design_ok(res, "RpkiGen")
@@ -145,10 +163,11 @@ def main(run: Run):
     # ---- white box: ROATable operations, Validate, policy condition ----
     groups = []
     if run.replay:
-        for g in ("tbl-sets-v4", "tbl-sets-v6", "tbl-walk"):
+        for g in ("tbl-dup", "tbl-sets-v4", "tbl-sets-v6", "tbl-walk"):
             groups.append((g, run.replay_behaviours(g)))
     else:
         k = 3 if thorough else 2
+        groups.append(("tbl-dup", gen_tbl_dup(run, 5 if thorough else 4)))
         groups.append(("tbl-sets-v4", gen_tbl_sets(run, "v4", k)))
         groups.append(("tbl-sets-v6", gen_tbl_sets(run, "v6", k)))
         groups.append(("tbl-walk", gen_tbl_walks(run, 400 if thorough else 80, 10 if thorough else 8, run.seed)))
